@@ -321,6 +321,10 @@ func (eng *Engine) VerifyLemma(lm *Lemma) (res *FuncResult) {
 		tm := &Term{n, s, t}
 		vc.assume(vc.typingFact(tm))
 		vc.assume(vc.typeInvFact(sc, tm))
+		if s == SStr && !vc.absStr && vc.mode != "bv" {
+			// the contents of a string are bytes (code gets this fact with every read)
+			vc.assume("(forall ((i Int)) (! (and (<= 0 (select (str-arr " + n + ") i)) (<= (select (str-arr " + n + ") i) 255)) :pattern ((select (str-arr " + n + ") i))))")
+		}
 		sc.vars[p.Name] = tm
 	}
 	sc.lemma = true
